@@ -64,6 +64,23 @@ def make_ts(rng):
         if len(drop) < ts.num_sites:
             tables.delete_sites(drop)
             ts = tables.tree_sequence()
+    # sometimes not simplified: a node that no edge refers to, and unary stretches of nodes
+    if rng.random() < 0.3:
+        if rng.random() < 0.5 and ts.num_samples > 2:
+            keep = list(ts.samples())
+            full = ts
+            # drop nothing, but re-simplify a superset with unary nodes kept is not available here:
+            # mark one sample's ancestors unary by removing another sample from the sample set
+            tables = ts.dump_tables()
+            flags = tables.nodes.flags
+            victim = int(keep[-1])
+            flags[victim] = 0                     # no longer a sample: its ancestors become unary / dangling
+            tables.nodes.flags = flags
+            ts = tables.tree_sequence()
+        else:
+            tables = ts.dump_tables()
+            tables.nodes.add_row(flags=0, time=float(max(ts.nodes_time)) + 1.0)
+            ts = tables.tree_sequence()
     # sometimes a few sites without any mutation (kept unless filter_sites=True)
     if rng.random() < 0.35:
         tables = ts.dump_tables()
@@ -238,7 +255,9 @@ def check_output(ctx, ts, kw, out, ivs, rp):
             return
     else:
         # filter_sites=True: exactly the sites that carry a mutation survive (outside user intervals)
-        with_mut = set(float(ts.sites_position[m.site]) for m in ts.mutations())
+        # (which sites still carry a mutation after simplification is tskit's rule: ask tskit)
+        with_mut = set(float(x) for x in ts.simplify(filter_sites=True, filter_populations=False,
+                                                     filter_individuals=False).sites_position)
         want = [x for x in in_pos if not removed(x) and x in with_mut]
         if out_pos != want:
             fail("sites-filter", "filter_sites=True: site positions %r expected, got %r" % (want[:10], out_pos[:10]))
